@@ -438,6 +438,34 @@ func historySpace(p int, tier string) mck.Space {
 		w.Bytes([]byte{1, 2, 3, 4, 5, 6, 7, 8})
 		datas = append(datas, body{"data(256,overlong)", w.B})
 	}
+	// ONE datagram: data for an id, a template set re-defining that id (every template body of the alphabet, the
+	// degenerate ones included), data for the id again - whatever the decoder remembers about a template while it
+	// works through a message must not outlive the re-definition
+	for _, a := range anns {
+		tid := uint16(a.b[0])<<8 | uint16(a.b[1])
+		if tier != "thorough" && tid != 256 {
+			continue // quick: one of the two ids
+		}
+		w := &ref.W{}
+		flowHeader(p, protoVersion(p), w)
+		w.U16(tid)
+		w.U16(12)
+		w.Bytes([]byte{1, 2, 3, 4, 5, 6, 7, 8})
+		id := uint16(2)
+		if a.name[0] == 'o' {
+			id = 3
+		}
+		if p == pV9 {
+			id -= 2
+		}
+		w.U16(id)
+		w.U16(uint16(4 + len(a.b)))
+		w.Bytes(a.b)
+		w.U16(tid)
+		w.U16(12)
+		w.Bytes([]byte{8, 7, 6, 5, 4, 3, 2, 1})
+		datas = append(datas, body{"data+" + a.name + "+data", w.B})
+	}
 	A := uint64(len(anns) + 1)
 	dims := mck.Radix{A, A, 3}
 	return mck.FuncSpace{N: dims.Size(), F: func(idx uint64, c *mck.Ctx) {
